@@ -161,6 +161,7 @@ type nodeReport struct {
 	InitPanic    string `json:"init_panic,omitempty"`
 	NormalOpErr  string `json:"normalop_err,omitempty"`
 	ReportErr    string `json:"report_err,omitempty"`
+	CatchUp      string `json:"catch_up,omitempty"`
 	LastHeight   uint64 `json:"last_height"`
 	LastID       string `json:"last_id"`
 	ProcHeight   uint64 `json:"processed_height"`
